@@ -308,7 +308,7 @@ def truncate(val: str, num: Any = 50, end: str = "...") -> str:
 
     try:
         num = to_int(num)
-    except ValueError as err:
+    except (ValueError, OverflowError) as err:
         raise FilterArgumentError(
             f"truncate expected an integer, found {type(num).__name__}", token=None
         ) from err
@@ -331,7 +331,7 @@ def truncatewords(val: str, num: Any = 15, end: str = "...") -> str:
 
     try:
         num = to_int(num)
-    except ValueError as err:
+    except (ValueError, OverflowError) as err:
         raise FilterArgumentError(
             f"truncate expected an integer, found {type(num).__name__}", token=None
         ) from err
